@@ -16,12 +16,13 @@
                                                    T02_text_carries_balances_src
    Hypothesis export_wf md es (TkSpec.EquityText_spec, decidable): metadata lines are lines; per transaction the
    time stamp is shown at a whole-minute offset with a 4-digit year (Journal_spec.ts_ok; F13: T02_subminute_refuted),
-   the uuid is a uuid text, the commodity is none or an identifier; per posting the account is a name of the
+   the uuid is a uuid text, the commodity is none or an identifier without white space (Journal_spec.comm_ok);
+   per posting the account is a name of the
    grammar that the semantic layer accepts (Journal_spec.name_ok, Journal.acct_sem_ok — for the equity account
    this is what Settings::try_from enforces since it runs the parser's own account-name rule on the configured
    name; the earlier check parser::is_valid_id = Equity_spec.eq_account_ok was weaker and not sufficient:
    T02_eq_account_ok_insufficient), the amount lies in the decimal type (96 bits, scale <= 28), the commodity is
-   none or an identifier; at least one posting.  T02_export_wf derives it for the export of a source as the
+   none or such an identifier; at least one posting.  T02_export_wf derives it for the export of a source as the
    loader produces it (src_txn_ok), leaving only the decimal domain of the written amounts (amounts_fit). *)
 From TkModel Require Import Base Dec Acct Txn Balance Accept Equity Journal EquityText.
 From TkSpec Require Import Balance_spec Equity_spec Journal_spec EquityText_spec.
@@ -68,6 +69,12 @@ Theorem T02_description_exact : forall e,
   trim_end (eq_desc e) = eq_desc e.
 Proof. exact eq_desc_trim. Qed.
 Print Assumptions T02_description_exact.
+
+(* ... which a well-formed export excludes (Commodity::from rejects such a name, so no loaded journal has one):
+   the description is read back exactly *)
+Theorem T02_description_read_back : forall e, eq_txn_wf e = true -> trim_end (eq_desc e) = eq_desc e.
+Proof. exact eq_desc_trim_wf. Qed.
+Print Assumptions T02_description_read_back.
 
 (* nothing at all is written for an empty balance, and the empty text is not a journal *)
 Theorem T02_empty_export : forall cfg md,
